@@ -398,8 +398,9 @@ func (cs *clientScen) cleanSeedSince(t int64, healthy []string) string {
 	return ""
 }
 
-// everyCleanSeedFailedADialBefore: each seed that answered throughout the call had refused (or timed out) a dial
-// of this client at some earlier time, i.e. the client had had a reason to set it aside.
+// everyCleanSeedFailedADialBefore: each seed that answered throughout the call had failed this client at some
+// earlier time (a refused or timed-out dial, or a connection that broke), i.e. the client had had a reason to set it
+// aside.
 func (cs *clientScen) everyCleanSeedFailedADialBefore(t int64, healthy []string) bool {
 	cs.cl.mu.Lock()
 	defer cs.cl.mu.Unlock()
@@ -408,7 +409,19 @@ func (cs *clientScen) everyCleanSeedFailedADialBefore(t int64, healthy []string)
 		for _, b := range cs.cl.brokers {
 			if b.addr == a && b.up && !b.blackhole && b.dirtyUs < t {
 				n++
-				if ft, ok := cs.cl.dialFailUs[a]; !ok || ft >= t {
+				failedBefore := false
+				if ft, ok := cs.cl.dialFailUs[a]; ok && ft < t {
+					failedBefore = true
+				}
+				for _, c := range b.conns {
+					// a connection to it that broke (reset, closed by the server, or given up by the client) earlier
+					c.mu.Lock()
+					if c.dialUs < t && (c.sawError || (c.serverCloseUs > 0 && c.serverCloseUs < t) || (c.clientCloseUs > 0 && c.clientCloseUs < t)) {
+						failedBefore = true
+					}
+					c.mu.Unlock()
+				}
+				if !failedBefore {
 					return false
 				}
 			}
@@ -575,7 +588,7 @@ func (cs *clientScen) doOp(client sarama.Client, op *cf.Op) {
 						cls = "concurrent-calls"
 					}
 					if cs.everyCleanSeedFailedADialBefore(o.invokeUs, healthy) {
-						cls += ",every-clean-seed-failed-a-dial-earlier"
+						cls += ",every-clean-seed-failed-the-client-earlier"
 					}
 					cs.r.violateClass("C15.refresh-failed-despite-live-broker", cls, "RefreshMetadata(%v) failed with %v although seed broker %s was reachable and fault-free during the whole call [%s]", op.Args, o.refreshErr, seed, cls)
 				}
